@@ -694,12 +694,14 @@ def judge(case, res, sigma, Wcall, ref, what=''):
     r = yv - A @ got
     chi_at = float(r @ Wcall @ r) + float(sum(((got[it['k']] - it['v']) / it['dv']) ** 2 for it in case.priors))
     chi = float(res.chisquare)
-    require(abs(chi - chi_at) <= 1e-9 * (1.0 + chi_at),
+    # rounding of the residuals y - A p (eps * (|y| + |A||p|)) is amplified by the weights when a datum has a tiny error
+    rnd = 1e-14 * float(np.abs(r) @ np.abs(Wcall) @ (np.abs(yv) + np.abs(A) @ np.abs(got)))
+    require(abs(chi - chi_at) <= 1e-9 * (1.0 + chi_at) + rnd,
             pre + 'chisquare %r is not the weighted residual norm at the returned parameters %r' % (chi, chi_at))
     chi_min = ref['chi_min']
     # (the returned parameters are allowed |dp_k| <= vt sigma_k + 1e-10 |p_k| above: the same distance in units of sigma, squared)
     vt_eff = max(vt + 1e-10 * abs(float(phat[k])) / float(sig[k]) for k in range(P))
-    require(abs(chi - chi_min) <= 1e-9 * (1.0 + chi_min) + 10 * P * vt_eff ** 2,
+    require(abs(chi - chi_min) <= 1e-9 * (1.0 + chi_min) + 10 * P * vt_eff ** 2 + rnd,
             pre + 'chisquare %r, weighted residual norm at the GLS solution %r' % (chi, chi_min))
     dof = n - P + npri
     require(res.dof == dof, pre + 'dof is %r, points - parameters + priors = %d - %d + %d' % (res.dof, n, P, npri))
